@@ -1,9 +1,248 @@
-"""Assumed contracts on dependencies (specified-opaquely tier).  Grown per property."""
+"""Assumed contracts on dependencies (specified-opaquely tier, DESIGN 4.3).
+
+Estimator protocol: an estimator is a heap object (Obj tag 'estimator') with ghost fields
+  $state   z3 term of sort Est: everything `fit` learned
+  $class   class name (string), $methods: set of method names it has, $params: SymDict or dict
+  $fit_X, $fit_y, $fit_w, $fit_kwargs: arguments of the last fit call (ghost)
+`fit` replaces $state by a fresh term and returns the receiver; predict/transform/... are
+deterministic row-wise functions of ($state, row).  Every call is appended to E.trace.
+"""
 import z3
 
-from .values import NdArr, Obj, Opaque, Unsupported, is_sym, z, zbool, fresh_name
-from .engine import ExternFn, Raised
+from .values import NdArr, Obj, Opaque, Unsupported, is_sym, z, zbool, fresh_name, is_num_like
+from .engine import ExternFn, Raised, PyFn, SymSeq, PathEnd
+
+Est = z3.DeclareSort("Est")
+Row = z3.DeclareSort("Row")
+RA2 = z3.ArraySort(z3.IntSort(), z3.IntSort(), z3.RealSort())
+RA1 = z3.ArraySort(z3.IntSort(), z3.RealSort())
+rowF = z3.Function("row", RA2, z3.IntSort(), Row)
+predF = z3.Function("predict", Est, Row, z3.RealSort())
+out2F = {m: z3.Function(m, Est, Row, z3.IntSort(), z3.RealSort())
+         for m in ("predict_proba", "transform", "decision_function", "predict2")}
+widthF = {m: z3.Function("width_" + m, Est, z3.IntSort()) for m in ("predict_proba", "transform", "decision_function", "predict2")}
+unfitted = z3.Function("unfitted", z3.IntSort(), Est)
+
+
+def term2(E, X):
+    """the 2-d array term of a view (lambda over the view's own indices)"""
+    if X.ndim != 2:
+        raise Unsupported("row-wise call on rank %d" % X.ndim)
+    fs = X.snapshot()
+    i, j = z3.Int(fresh_name("ri")), z3.Int(fresh_name("rj"))
+    v = fs.get(i, j)
+    if z3.is_int(v):
+        v = z3.ToReal(v)
+    return z3.Lambda([i, j], v)
+
+
+def row_of(E, X, r):
+    key = ("term2", id(X.cell), X.cell.term.get_id(), tuple(map(repr, X.imap)))
+    cache = E.ps.setdefault("term2", {})
+    if key not in cache:
+        cache[key] = term2(E, X)
+    return rowF(cache[key], z(r))
+
+
+def rows_equal_lemma(E, A, r, B, s, ncols):
+    """row extensionality (instance): equal entries => equal Row"""
+    c = z3.Int(fresh_name("c"))
+    E.axiom(z3.Implies(z3.ForAll([c], z3.Implies(z3.And(c >= 0, c < z(ncols)), A.get(r, c) == B.get(s, c))),
+                       row_of(E, A, r) == row_of(E, B, s)))
+    E.used_lemmas.add("row_ext")
+
+
+class DelayedCall:
+    def __init__(self, f, args, kwargs):
+        self.f, self.args, self.kwargs = f, args, kwargs
+
+
+def new_estimator(E, name="est", cls="Estimator", methods=("fit", "predict", "get_params", "set_params"),
+                  fitted=False, params=None, bases=("BaseEstimator",)):
+    o = Obj("estimator", tag="estimator")
+    o.fields["$class"] = cls
+    o.fields["$methods"] = set(methods)
+    o.fields["$state"] = z3.Const(fresh_name(name + "_state"), Est)
+    o.fields["$params"] = params if params is not None else {}
+    o.fields["$bases"] = list(bases)
+    o.fields["$name"] = name
+    o.fields["$fitted"] = fitted
+    return o
+
+
+def est_state(o):
+    return o.fields["$state"]
+
+
+def maybe_raise(E, what, node=None):
+    """a call into a dependency may raise (C02): one exceptional path with an unconstrained error"""
+    if E.ext_may_raise:
+        if E.choose([None, None]) == 1:
+            raise Raised("ExternalError", (what,), node, "external")
 
 
 def install(R):
-    pass
+    reg = R.register
+
+    # ------------------------------------------------------------------ estimator protocol
+    def hook_attr(E, base, attr, node):
+        if isinstance(base, Obj) and base.tag == "estimator":
+            if attr in base.fields["$methods"]:
+                return ExternFn("estimator." + attr, base)
+            if attr.endswith("_") and not attr.startswith("_") and base.fields.get("$fitted"):
+                return R.fitted_attr(E, base, attr, node)
+            return NotImplemented
+        return NotImplemented
+    R.attr_hooks.append(hook_attr)
+
+    def fitted_attr(E, base, attr, node):
+        raise Unsupported("fitted attribute %s of an opaque estimator" % attr)
+    R.fitted_attr = fitted_attr
+
+    def opaque_hasattr(E, v, attr):
+        if isinstance(v, Obj) and v.tag == "estimator":
+            if attr in v.fields["$methods"] or attr in v.fields:
+                return True
+            if attr.endswith("_") and not attr.startswith("_"):
+                fa = v.fields.get("$fitted_attrs")
+                return bool(v.fields.get("$fitted")) and (fa is None or attr in fa)
+            return False
+        raise Unsupported("hasattr(%r, %s)" % (v, attr))
+    R.opaque_hasattr = opaque_hasattr
+
+    def m_fit(E, recv, args, kwargs, node):
+        names = ["X", "y", "sample_weight"]
+        b = dict(zip(names, args))
+        for k, v in kwargs.items():
+            b[k] = v
+        maybe_raise(E, "fit", node)
+        pre = recv.fields["$state"]
+        recv.fields["$state"] = z3.Const(fresh_name(recv.fields.get("$name", "est") + "_fitted"), Est)
+        recv.fields["$fitted"] = True
+        recv.fields["$fit_X"] = b.get("X")
+        recv.fields["$fit_y"] = b.get("y")
+        recv.fields["$fit_w"] = b.get("sample_weight")
+        recv.fields["$fit_kwargs"] = {k: v for k, v in b.items() if k not in names}
+        recv.fields["$fit_count"] = recv.fields.get("$fit_count", 0) + 1
+        recv.events.append(("call", "fit"))
+        E.trace.append(dict(op="fit", obj=recv, X=b.get("X"), y=b.get("y"), w=b.get("sample_weight"),
+                            kwargs=recv.fields["$fit_kwargs"], pre_state=pre, post_state=recv.fields["$state"],
+                            given=set(b.keys())))
+        return recv
+    R.methods[("estimator", "fit")] = m_fit
+
+    def rowwise1(method):
+        def m(E, recv, args, kwargs, node):
+            X = args[0] if args else kwargs["X"]
+            maybe_raise(E, method, node)
+            if not isinstance(X, NdArr) or X.ndim != 2:
+                raise Unsupported("%s on %r" % (method, X))
+            st = recv.fields["$state"]
+            fs = X.snapshot()
+            E.trace.append(dict(op=method, obj=recv, X=X, state=st))
+            return NdArr.from_fn(method, (X.shape[0],), "real", lambda r: predF(st, row_of(E, fs, r)))
+        return m
+    R.methods[("estimator", "predict")] = rowwise1("predict")
+
+    def rowwise2(method):
+        def m(E, recv, args, kwargs, node):
+            X = args[0] if args else kwargs["X"]
+            maybe_raise(E, method, node)
+            if not isinstance(X, NdArr) or X.ndim != 2:
+                raise Unsupported("%s on %r" % (method, X))
+            st = recv.fields["$state"]
+            fs = X.snapshot()
+            wd = recv.fields.get("$width_" + method)
+            if wd is None:
+                wd = widthF[method](st)
+                E.assume(wd >= 1)
+            E.trace.append(dict(op=method, obj=recv, X=X, state=st))
+            return NdArr.from_fn(method, (X.shape[0], wd), "real",
+                                 lambda r, c: out2F[method](st, row_of(E, fs, r), c))
+        return m
+    for mname in ("predict_proba", "transform", "decision_function"):
+        R.methods[("estimator", mname)] = rowwise2(mname)
+
+    @reg("sklearn.base.clone")
+    def _clone(E, est, safe=True):
+        if isinstance(est, Obj) and est.tag == "estimator":
+            maybe_raise(E, "clone")
+            o = new_estimator(E, est.fields.get("$name", "est") + "_clone", est.fields["$class"],
+                              est.fields["$methods"], False, est.fields["$params"], est.fields["$bases"])
+            o.fields["$clone_of"] = est
+            for k in ("$width_predict_proba", "$width_transform", "$width_decision_function"):
+                if k in est.fields:
+                    o.fields[k] = est.fields[k]
+            E.trace.append(dict(op="clone", obj=est, result=o))
+            return o
+        hook = getattr(R, "clone_hook", None)
+        if hook is not None:
+            r = hook(E, est, safe)
+            if r is not NotImplemented:
+                return r
+        raise Unsupported("clone(%r)" % (est,))
+
+    # ------------------------------------------------------------------ joblib (A8)
+    def _parallel(E, *a, **kw):
+        def runner(E, calls):
+            def run1(c):
+                if not isinstance(c, DelayedCall):
+                    raise Unsupported("Parallel over non-delayed items")
+                return E.call(c.f, list(c.args), dict(c.kwargs))
+            if isinstance(calls, SymSeq):
+                seq = SymSeq(calls.length, lambda k: run1(calls.item(k)), "parallel")
+                E.generic_element_check(seq)
+                return seq
+            return [run1(c) for c in E.iterate_concrete(calls)]
+        E.note_assumption("A8 joblib.Parallel(...)(delayed(f)(a) for ...) = [f(a) for ...] in order (sequential semantics)")
+        return PyFn(runner, "Parallel-runner")
+    R.fns["*.Parallel"] = _parallel
+
+    def _delayed(E, f):
+        return PyFn(lambda E, *a, **k: DelayedCall(f, a, k), "delayed")
+    R.fns["*.delayed"] = _delayed
+    R.fns["*.tqdm"] = lambda E, it, *a, **k: it
+
+    # ------------------------------------------------------------------ numpy.random (global generator)
+    @reg("numpy.random.randint")
+    def _randint(E, low, high=None, size=None, dtype=None):
+        if high is None:
+            low, high = 0, low
+        # numpy raises ValueError when high <= low
+        E.safety("randint-range", z(high) > z(low), None, "ValueError")
+        if size is None:
+            v = E.int("rnd")
+            E.assume(z3.And(v >= z(low), v < z(high)))
+            E.trace.append(dict(op="randint", low=low, high=high, size=None, result=v, rng="Global"))
+            return v
+        if isinstance(size, tuple):
+            raise Unsupported("randint with tuple size")
+        E.safety("randint-size", z(size) >= 0, None, "ValueError")
+        arr = NdArr.fresh("rnd", (size,), "int")
+        i = z3.Int(fresh_name("i"))
+        E.assume(z3.ForAll([i], z3.And(arr.cell.term[i] >= z(low), arr.cell.term[i] < z(high))))
+        E.trace.append(dict(op="randint", low=low, high=high, size=size, result=arr, rng="Global"))
+        return arr
+
+    # ------------------------------------------------------------------ integer-array indexing
+    def fancy_get(E, arr, idx, node):
+        if isinstance(idx, tuple):
+            if len(idx) == 2 and isinstance(idx[0], NdArr) and isinstance(idx[1], slice) and \
+                    idx[1].start is None and idx[1].stop is None and idx[1].step is None:
+                idx = idx[0]
+            else:
+                raise Unsupported("fancy index %r" % (idx,))
+        if isinstance(idx, NdArr) and idx.kind == "int" and idx.ndim == 1:
+            n = z(arr.shape[0])
+            fi = idx.snapshot()
+            i = z3.Int(fresh_name("fi"))
+            inb = z3.ForAll([i], z3.Implies(z3.And(i >= 0, i < z(idx.shape[0])),
+                                            z3.And(fi.get(i) >= 0, fi.get(i) < n)))
+            # numpy accepts -n <= j < n; indices are required non-negative here (conservative)
+            E.safety("fancy-index", inb, node, "IndexError")
+            fa = arr.snapshot()
+            shape = (idx.shape[0],) + tuple(arr.shape[1:])
+            nanfn = (lambda r, *c: fa.isnan(fi.get(r), *c)) if fa.cell.nan is not None else None
+            return NdArr.from_fn("take", shape, arr.kind, lambda r, *c: fa.get(fi.get(r), *c), nanfn)
+        raise Unsupported("fancy index %r at %s" % (idx, E.where(node)))
+    R.fancy_get = fancy_get
